@@ -28,6 +28,7 @@ REQUIRE = {
         "HelicityDecay.get_ls_list==reference": 200,
         "l_list restriction": 50,
         "ls_list restriction": 50,
+        "symbolic cg_matrix == numeric cg_matrix": 10,
         "cg_matrix full rank": 100,
         "n_ls==independent helicity amplitudes": 100,
     },
@@ -233,6 +234,19 @@ def run(ctx):
                                             dev = max(dev, abs(ref - m[i_, ib, ic]))
                                 ctx.dev("cg_matrix entries", dev, 1e-9)
                                 ctx.check("cg_matrix==exact formula", dev < 1e-9, lambda: dict(desc, dev=dev), mechanism="cg_matrix entries")
+                                # the symbolic form of the same map (get_cg_matrix(out_sym=True), used by build_ls2hel_eq): sympy's exact CG
+                                # coefficients are slow, so small spins and a rotating subset only
+                                if max(ja2, jb2, jc2) <= 3 and (k + pa + 2 * pb + 4 * pc + p_break) % ctx.pick(12, 3) == 0 and ca is None:
+                                    try:
+                                        import sympy as sym
+
+                                        ms = d1.get_cg_matrix(out_sym=True)
+                                        msn = np.array([[[float(sym.N(x)) for x in r_] for r_ in mm_] for mm_ in ms], dtype=float)
+                                        devs = float(np.max(np.abs(msn - m))) if msn.shape == m.shape else np.inf
+                                        ctx.check("symbolic cg_matrix == numeric cg_matrix", devs < 1e-9, lambda: dict(desc, dev=devs),
+                                                  mechanism="symbolic cg_matrix (%s spins)" % ("half-integer" if (jb2 % 2 or jc2 % 2) else "integer"))
+                                    except Exception as e:
+                                        ctx.violation("symbolic cg_matrix == numeric cg_matrix", ctx.exc_witness(e, **desc), mechanism="symbolic cg_matrix raises")
                             ctx.covered("rank_2J", (ja2, jb2, jc2))
             ctx.covered("object_2J_max", max(ja2, jb2, jc2))
         ctx.sample({"section": "objects", "example": "A(3/2-) -> B(1-) C(1/2+)", "ref_ls": ref_ls(3, 2, 1, -1, -1, 1, False, None),
